@@ -20,7 +20,7 @@ ID = "C04"
 LEVEL = "exploration"
 EVAL_UNIT = "steps"
 EVAL_UNIT_TEXT = "(circuit, reordering function, sorter schedule) executions; simulated_runs counts circuits"
-BUDGET = {"quick": 75, "thorough": 900}
+BUDGET = {"quick": 200, "thorough": 900}
 JOB_TIMEOUT = 120
 MINIMISE_S = {"quick": 40, "thorough": 120}
 RULE = ("cases = seeded circuits (1-40 commands, 2-8 modes; gates, 2-mode gates in both mode orders, Fock/homodyne "
@@ -50,8 +50,8 @@ def warm(tier):
 
 def batches(tier):
     if tier == "quick":
-        return [{"name": "mixed", "runs": 2600, "weight": 3}, {"name": "gbs-shaped", "runs": 1300, "weight": 1, "seed_offset": 500000},
-                {"name": "xunitary", "runs": 500, "weight": 1, "seed_offset": 700000}]
+        return [{"name": "mixed", "runs": 5200, "weight": 3}, {"name": "gbs-shaped", "runs": 2600, "weight": 1, "seed_offset": 500000},
+                {"name": "xunitary", "runs": 1000, "weight": 1, "seed_offset": 700000}]
     return [{"name": "mixed", "runs": 60000, "weight": 3}, {"name": "gbs-shaped", "runs": 30000, "weight": 1, "seed_offset": 500000},
             {"name": "xunitary", "runs": 8000, "weight": 1, "seed_offset": 700000}]
 
